@@ -309,7 +309,7 @@ def run_shard(spec):
 
     # an empty forest needs p_empty=1: handled by max_per_frame 0 below
     return common.run_sessions(spec, PROP, make_monitors, cf, nsteps=(15, 30),
-                               weights=WEIGHTS)
+                               weights=WEIGHTS, history_share=0.25)
 
 
 def floors(tier):
